@@ -80,6 +80,7 @@ func (in *Interp) initAll() {
 	in.phase = 0
 	in.syncUses = nil
 	in.pools = nil
+	in.pendingGo = nil
 	in.syncMaps = nil
 	in.openFiles = nil
 	in.testFailed, in.testMsg = false, ""
